@@ -232,8 +232,19 @@ def judge_writer(case, part):
         with m["rowio"].XlsxRowWriter(path) as writer:
             if case.get("api") == "write_rows":
                 writer.write_rows(table)
+            elif case.get("api") == "mixed":
+                # the first row on its own, the rest in chunks of two, each chunk as a one-shot iterable
+                writer.write_row(table[0])
+                for start in range(1, len(table), 2):
+                    writer.write_rows(row for row in table[start:start + 2])
             else:
-                for row in table:
+                for index, row in enumerate(table):
+                    if index == 1 and case.get("refused_between"):
+                        try:
+                            writer.write_row(["x", "y" * 40000, "z"])
+                            part.fail("writer|oversized-cell-not-refused", case, "DataFormatError", "written")
+                        except m["errors"].DataFormatError:
+                            pass
                     writer.write_row(row)
     except Exception as error:
         if isinstance(error, m["errors"].DataFormatError) and any(len(cell) > 32767 for row in table for cell in row):
@@ -353,12 +364,16 @@ def run(ctx):
     tables = [t for t in c15.STRUCTURED if t and all(len(r) for r in t)] + c15.small_tables(c15.SMALL, [(1, 1), (1, 2), (2, 2)] if quick else [(1, 1), (1, 2), (2, 2), (2, 3)])
     for index, table in enumerate(tables):
         misc.append({"group": "writer", "table": table, "api": "write_rows" if index % 2 else "write_row", "cells": []})
+    for table in [t for t in tables if len(t) >= 2][:12]:
+        misc.append({"group": "writer", "table": table, "api": "mixed", "cells": []})
     # strings that look like markup, formulas or numbers, and strings at the cell size limit of the file format
     for name, cell in (("markup", "<r>x</r>"), ("markup", "<r><t>x</t></r>"), ("tag", "<t>x</t>"), ("formula", "=1+1"), ("array-formula", "{=1+1}"), ("number", "007"), ("number", "1e3"), ("url", "http://example.com/"),
                        ("mail", "mailto:a@example.com"), ("internal", "internal:Sheet1!A1"), ("quote-prefix", "'x")):
         misc.append({"group": "writer", "table": [[cell, "z"]], "api": "write_row", "cells": [], "what": name})
     for length in (32766, 32767, 32768, 40000):
         misc.append({"group": "writer", "long": length, "api": "write_row", "cells": [], "what": "%d-characters" % length})
+    # a row the writer refuses (a cell beyond the size limit in its second column) between two ordinary rows: the others read back as written
+    misc.append({"group": "writer", "refused_between": True, "table": [["a", "b", "c"], ["d", "e"]], "api": "write_row", "cells": [], "what": "row-refused-in-between"})
     # sparse sheets: every table of up to 4 rows x 3 columns over {empty, 'a'} (quick: up to 3 x 3), cells stored only where not empty
     layouts = 0
     for height in range(1, 4 if quick else 5):
